@@ -458,6 +458,10 @@ class ExprMixin:
         if isinstance(op, (ast.In, ast.NotIn)):
             r = self.contains(b, a, st)
             return simp(z3.Not(r)) if isinstance(op, ast.NotIn) else r
+        if not isinstance(op, (ast.Eq, ast.NotEq, ast.Is, ast.IsNot)):
+            a, b = self.unopt(st, a), self.unopt(st, b)
+            if isinstance(a, Opt) or isinstance(b, Opt) or a is None or b is None:
+                raise Unsupported("ordering comparison with a possibly-None operand")
         return ops.compare(st, op, a, b)
 
     def contains(self, container, item, st):
@@ -487,7 +491,7 @@ class ExprMixin:
         raise Unsupported(f"`in` on {container!r}")
 
     def ev_BinOp(self, e, st):
-        return self.then(self.ev_seq([e.left, e.right], st), lambda vals, s: [("val", ops.binop(s, e.op, vals[0], vals[1]), s)])
+        return self.then(self.ev_seq([e.left, e.right], st), lambda vals, s: [("val", ops.binop(s, e.op, self.unopt(s, vals[0]), self.unopt(s, vals[1])), s)])
 
     def ev_Subscript(self, e, st):
         if isinstance(e.slice, ast.Slice):
